@@ -32,6 +32,7 @@ type Flow struct {
 	NoUDP       bool   // the correct server does not support UDP (461), the automatic client falls back to TCP
 	Blackhole   bool   // the correct server's UDP packets never arrive; the harness idles so that the client switches to TCP
 	Quick       bool   // part of the quick tier
+	Base        string // flow whose conversation is a prefix of this one
 }
 
 var flows = []*Flow{
@@ -40,12 +41,12 @@ var flows = []*Flow{
 	{Name: "play-udp", Mode: "play", Proto: "udp", Quick: true},
 	{Name: "play-auto", Mode: "play", Proto: "auto", Quick: true},
 	{Name: "play-auto-461", Mode: "play", Proto: "auto", NoUDP: true, Quick: true},
-	{Name: "play-auto-switch", Mode: "play", Proto: "auto", Blackhole: true, Pause: true, Quick: true},
-	{Name: "pause-tcp", Mode: "play", Proto: "tcp", Pause: true, Quick: true},
-	{Name: "pause-udp", Mode: "play", Proto: "udp", Pause: true, Quick: true},
+	{Name: "play-auto-switch", Mode: "play", Proto: "auto", Blackhole: true, Pause: true, Quick: true, Base: "play-auto"},
+	{Name: "pause-tcp", Mode: "play", Proto: "tcp", Pause: true, Quick: true, Base: "play-tcp"},
+	{Name: "pause-udp", Mode: "play", Proto: "udp", Pause: true, Quick: true, Base: "play-udp"},
 	{Name: "record-tcp", Mode: "record", Proto: "tcp", Pause: true, Quick: true},
 	{Name: "record-udp", Mode: "record", Proto: "udp", Quick: true},
-	{Name: "record-auto", Mode: "record", Proto: "auto", Quick: false},
+	{Name: "record-auto", Mode: "record", Proto: "auto", Quick: true},
 	{Name: "backchannel-tcp", Mode: "play", Proto: "tcp", BackChannel: true, Quick: true},
 }
 
